@@ -979,9 +979,14 @@ func skAddRunV(s int, v float64, n int) skOp { return skAddRunStride(s, v, n, 1)
 // skAddRunStride: n unit additions, one every stride-th bin (scattered entries
 // stay in the paginated store's buffer: no page ever gets 32 of them).
 func skAddRunStride(s int, v float64, n, stride int) skOp {
-	name := fmt.Sprintf("%s.AddRun(from %s, %d consecutive bins)", slotName(s), fstr(v), n)
+	return skAddRunSigned(s, v, n, stride, 1)
+}
+
+// skAddRunSigned: the same with every value multiplied by sign (+1 or -1).
+func skAddRunSigned(s int, v float64, n, stride int, sign float64) skOp {
+	name := fmt.Sprintf("%s.AddRun(from %s, %d consecutive bins)", slotName(s), fstr(sign*v), n)
 	if stride != 1 {
-		name = fmt.Sprintf("%s.AddRun(from %s, %d bins, one every %d)", slotName(s), fstr(v), n, stride)
+		name = fmt.Sprintf("%s.AddRun(from %s, %d bins, one every %d)", slotName(s), fstr(sign*v), n, stride)
 	}
 	return skOp{name: name, tag: "add", writes: 1 << uint(s),
 		real: func(w *SketchWorld, st []*SkSlot, _ bool) {
@@ -989,7 +994,7 @@ func skAddRunStride(s int, v float64, n, stride int) skOp {
 			i0 := m.Index(v)
 			top := m.Index(m.MaxIndexableValue()) - 2
 			for j := 0; j < n && i0+j*stride < top; j++ {
-				must(st[s].Q().Add(m.Value(i0+j*stride)), "AddRun")
+				must(st[s].Q().Add(sign*m.Value(i0+j*stride)), "AddRun")
 			}
 		},
 		mod: func(w *SketchWorld) {
@@ -997,7 +1002,7 @@ func skAddRunStride(s int, v float64, n, stride int) skOp {
 			i0 := m.Index(v)
 			top := m.Index(m.MaxIndexableValue()) - 2
 			for j := 0; j < n && i0+j*stride < top; j++ {
-				w.M[s].Add(m.Value(i0+j*stride), 1)
+				w.M[s].Add(sign*m.Value(i0+j*stride), 1)
 			}
 		}}
 }
